@@ -85,6 +85,24 @@ def variations_of(cfg):
     return out if names else [dict(cfg["fixed"])]
 
 
+def regrid_cfg(cfg, rg):
+    """The configuration after a parameter was un-marked (it stays in the set as a fixed, list-valued parameter) or a
+    list-valued fixed parameter was marked for unpacking, on a LIVE runner between two simulate() calls."""
+    c = json.loads(json.dumps(cfg))
+    if rg.get("unmark") in c["unpacked"]:
+        spec = c["unpacked"].pop(rg["unmark"])
+        c["fixed"][rg["unmark"]] = {"__nd__": list(spec["values"])} if spec.get("array") else list(spec["values"])
+    elif rg.get("mark") in c["fixed"]:
+        v = c["fixed"].pop(rg["mark"])
+        if isinstance(v, dict) and "__nd__" in v:
+            c["unpacked"][rg["mark"]] = {"values": list(v["__nd__"]), "array": True}
+        elif isinstance(v, list):
+            c["unpacked"][rg["mark"]] = {"values": list(v), "array": False}
+        else:
+            c["fixed"][rg["mark"]] = v
+    return c
+
+
 def val_of(v, c):
     return 1 + (3 * v + 5 * c) % 7
 
@@ -145,6 +163,10 @@ class ScriptedRunner(SimulationRunner):
                 self.params.add(name, np.array(spec["values"]) if spec.get("array") else list(spec["values"]))
             if name not in (cfg.get("unpack_order") or sorted(cfg["unpacked"])):
                 self.params.set_unpack_parameter(name)
+        if cfg.get("unmark") in cfg["fixed"]:
+            # a list-valued parameter is marked for unpacking and un-marked again before the run: it stays fixed
+            self.params.set_unpack_parameter(cfg["unmark"])
+            self.params.set_unpack_parameter(cfg["unmark"], False)
         self.update_progress_function_style = cfg.get("progress")       # None / 'text1' / 'text2' (printed to a redirected stdout)
         if cfg.get("results_name") is not None:
             self.set_results_filename(cfg["results_name"] + cfg.get("ext", ""))
@@ -576,6 +598,15 @@ class World:
                     self.runner = self.build_runner(cfg, pname)
                     self.runner_pname = pname
                     self.cur_rep_max = cfg["rep_max"]
+                rg = getattr(self, "pending_regrid", None)
+                if rg is not None and same:
+                    self.pending_regrid = None
+                    if rg.get("unmark") is not None:
+                        self.runner.params.set_unpack_parameter(rg["unmark"], False)
+                        bump(self.probes, "parameter_unmarked_on_a_live_runner")
+                    elif rg.get("mark") is not None and rg["mark"] in cfg["unpacked"]:
+                        self.runner.params.set_unpack_parameter(rg["mark"])
+                        bump(self.probes, "parameter_marked_on_a_live_runner")
                 if inc.get("set_rep_max") is not None:
                     self.runner.rep_max = int(inc["set_rep_max"])
                     self.cur_rep_max = int(inc["set_rep_max"])
@@ -734,6 +765,11 @@ def execute(plan, record_last=False, record_lines=False):
             cfg = w.cfgs[pname]
             fault = inc.get("fault")
             same = bool(inc.get("same_runner")) and w.runner is not None and w.runner_pname == pname
+            rg_ = inc.get("regrid")
+            if rg_ and same and cfg.get("results_name") is None and not plan.get("mutating_user") and (
+                    rg_.get("unmark") in cfg["unpacked"] or isinstance(cfg["fixed"].get(rg_.get("mark")), (list, dict))):
+                cfg = w.cfgs[pname] = regrid_cfg(cfg, rg_)
+                w.pending_regrid = rg_
             rep_max = inc.get("set_rep_max") if inc.get("set_rep_max") is not None else (
                 w.cur_rep_max if same else cfg["rep_max"])
             final_name, parts, durable = w.observe_durable(cfg)
